@@ -23,7 +23,7 @@ P = {
  "C06": (True, "exploration", "bounded-exhaustive enumeration of pattern sets x value assignments x 16 value types (13 built-in, Empty, three user-defined Serializable) x match kinds x search methods, before and after a serialisation round trip; scale cases (haystacks/patterns/pattern counts beyond 65 535)",
   "Every function from the patterns of each small set to {0,1,MAX} (signed: MIN,-1,0,MAX) is built with build_with_values and every match of every haystack is checked against the registered value; bare patterns must carry their position; 256/128-pattern index boundary for u8/i8.",
   "Bounded sets (<= 3 patterns). Table-level values for all haystacks come from C01's E1.", "§3 C06"),
- "C07": (True, "model_checking", "closure exploration of the raw table of every automaton (all reachable states x all labels, fail links, output chains) with a bounds-checked interpreter, for built and deserialised automata; all enumeration sweeps (u32 values and the 16-type value matrix incl. the zero-sized Empty) executed with std's unsafe-precondition checks on; UTF-8 decoder swept over all 1,112,064 scalar values",
+ "C07": (True, "model_checking", "closure exploration of the raw table of every automaton (all reachable states x all labels, fail links, output chains) with a bounds-checked interpreter, for built and deserialised automata; all enumeration sweeps (u32 values and the 16-type value matrix incl. the zero-sized Empty) executed with std's unsafe-precondition checks on; haystack objects whose AsRef answer changes once, at every possible call (environment-answer deviation bound 1); UTF-8 decoder swept over all 1,112,064 scalar values",
   "For every automaton of the population every index the search loop can compute from a reachable state is enumerated and shown in range, for all three kinds, built and restored; the iterators and the decoder are executed under precondition checks on the enumerated haystacks and on every Unicode scalar value.",
   "Closure covers the tables; iterator-level UB is covered on executed paths only (precondition checks; Miri on a reduced enumeration in the thorough tier).", "§3 C07"),
  "C08": (True, "model_checking", "product exploration (bisimulation at character granularity) of the char-wise and the byte-wise automaton built from the same patterns, every step on the crates' own transition functions; bounded-exhaustive differential enumeration of all search methods",
